@@ -44,7 +44,7 @@ def main():
                 shutil.copy(patch, d / "patch.diff")
                 shutil.copy(demo, d / "demo.py")
                 m = json.loads(meta.read_text()) if meta.exists() else {}
-                m = {"property": prop, "origin": f"fresh sub-agent (round 2) given only the property record and a scratch worktree of HEAD ({head})",
+                m = {"property": prop, "origin": f"fresh sub-agent given only the property record and a scratch worktree of HEAD ({head})",
                      **{k: v for k, v in m.items() if k in ("summary", "site", "needs_to_manifest")},
                      "confirmed_by_me": {"worktree": f"private scratch worktree at {head}", "demo_on_clean_tree": t0, "demo_with_patch": t1, "full_suite_with_patch": t2},
                      "detected_by": "see /verif/seeded/MATRIX.json (written by tools/seed_matrix.py)"}
